@@ -18,6 +18,24 @@ CLAIMED = {
         text="Theorem C20_cmdline_roundtrip: for every vector of UTF-16 strings that assemble_cmdline accepts, parsing the produced line with the Microsoft argument rules (C runtime 2008+, CommandLineToArgvW and the older runtime: uniform in the rule parameter) returns exactly the vector; NUL is rejected iff present; n backslashes before a quote / at the end come back as n for every n.  The functions' source text is cut out of popen.rs at build time, compiled on Linux and compared with the model; its output is parsed back by both reference parsers.",
         note="Trusted: Coq kernel; Lib/MsParse.v encodes the documented parsing rules (no Windows runtime here; the documented example table is proved); build.rs cutter and UTF-16 shim; extraction for bulk cases (cross-checked against vm_compute).  The program-name rule is proved only for names without quote and backslash (C20_progname_roundtrip_partial).",
         design="5/C20"),
+    "C09": dict(
+        engine="E1-kernel-in-the-loop",
+        technique="Coq proof (invariants by induction over executions of the Popen state machine on a process model; finite sweep over all exit codes and signals) + kernel-in-the-loop correspondence: the real Popen methods run on a virtual process and clock served by the extracted model",
+        text="Theorems C09_*: every exit code 0..255 and signal 1..126 decodes truthfully; a reported status is the decoding of the raw status of a zombie that the same operation reaped; while the child never exits poll/wait_timeout report None and wait does not return; once a status is known every later operation history returns it, pid() is absent and NO system call is made; a child reaped elsewhere yields Undetermined and the call returns.  The machine is tied to the code by running the real methods against the extracted kernel model call by call (waitpid/kill/clock/sleep interposed) and comparing every call and return value with the machine's.",
+        note="Trusted: Coq kernel; K's process/wait semantics (PopenSM.pworld) model Linux, validated not proved; simdrive interposers; spsim glue; the libc crate's WIF* bit definitions are modelled in Lib/Status.v.",
+        design="5/C09"),
+    "C10": dict(
+        engine="E1-kernel-in-the-loop",
+        technique="Coq proof (case analysis of the state machine, induction over operation histories) + kernel-in-the-loop correspondence with an interposed kill() log",
+        text="Theorems C10_*: on a Running handle a signalling call issues exactly one kill with exactly the requested signal (for every signal number); no other operation ever sends a signal; after termination was observed (any status, Undetermined included) or after our own waitpid reaped the child, every later history issues no system call at all and signalling calls return success.",
+        note="Trusted: as C09.  A kill that hits a pid reaped by foreign code before any query observed it cannot be prevented by the library and is outside the property's statement.",
+        design="5/C10"),
+    "C11": dict(
+        engine="E1-kernel-in-the-loop",
+        technique="Coq proof (loop invariants over the wait_timeout machine under an adversarial clock: arbitrary call durations and oversleeps; potential-function bound on status checks) + kernel-in-the-loop correspondence under a virtual clock",
+        text="Theorems C11_*: poll issues at most clock/waitpid(WNOHANG)/clock, no sleep, no error; wait_timeout(d) says 'still running' no earlier than d and no later than d + 4D + O (D, O bounds on call duration and oversleep), reports an exit at any instant te within max(te,start) + 100 ms + 4D + O with the true status, returns at once when the status is known, sleeps a positive time between status checks, and makes at most 8 + ceil(d/100ms) status checks -- for every d and exit time.  The real wait_timeout/poll run against the virtual clock of the extracted model; sleep arguments, call counts and return instants are compared.",
+        note="Trusted: as C09; wall-clock meaning of the virtual clock rests on the OS honouring sleeps (std::thread::sleep sleeps at least the request).  Waits of days/weeks on a live child are covered by the theorem only (22 million iterations are not executed).",
+        design="5/C11"),
 }
 
 ALL = ["C%02d" % i for i in range(1, 21)]
@@ -52,6 +70,8 @@ def main():
             "add_only": True,
         },
         "engines": [
+            {"name": "E1-kernel-in-the-loop", "path": "harness/src/bin/simdrive.rs + ocaml/src/spsim.ml", "serves_properties": ["C01", "C02", "C03", "C04", "C09", "C10", "C11"],
+             "kind_free_text": "the real library runs on fake descriptors, a virtual clock and a virtual child served live by the extracted Coq kernel model; the library model is stepped in lockstep and compared call by call"},
             {"name": "E3-pure", "path": "harness/src/bin/puredrive.rs", "serves_properties": ["C19", "C20"],
              "kind_free_text": "pure differential: real function vs Gallina model evaluated by vm_compute"},
         ],
